@@ -82,7 +82,13 @@ fn make_aux(c: &LedgerCase, seed: &[u8]) -> Option<AuxBuf> {
 pub fn check_ledger(c: &LedgerCase) -> Verdict {
     let n = c.hash.n();
     let m = Model::rfc(c.hash);
-    let seed = gen::expand(0xc04, n);
+    let mut seed = gen::expand(0xc04, n);
+    if c.levels.len() >= 7 {
+        // a full parameter list has no end marker of its own: bytes that look like one follow in the seed
+        seed[0] = 0x14;
+        seed[1 + c.hash.index()] = 0xff;
+        seed[n - 1] = 0xff;
+    }
     let total: u64 = 1u64 << c.levels.iter().map(|l| l.1).sum::<u32>();
     let good = hss::private_key_blob(&c.levels, 0, &seed);
     let (blob, precondition_fails): (Vec<u8>, bool) = match &c.state {
@@ -311,6 +317,17 @@ pub fn run(ctx: &Ctx) {
                 }
                 items.push(LedgerCase { hash: h, levels: shape.clone(), state: KeyState::Live(ctr), accept: true, aux: AuxSel::None, entry: Entry::TrySign });
             }
+        }
+    }
+    // the longest parameter list (no end marker) with marker-like seed bytes, every hash
+    for h in ALL_HASHES {
+        let shape = vec![(8u32, 2u32); 8];
+        for ctr in [0u64, 255, 256, 65535] {
+            for accept in [true, false] {
+                items.push(LedgerCase { hash: h, levels: shape.clone(), state: KeyState::Live(ctr), accept, aux: AuxSel::None, entry: Entry::Sign });
+            }
+            items.push(LedgerCase { hash: h, levels: shape.clone(), state: KeyState::Live(ctr), accept: true, aux: AuxSel::None, entry: Entry::TrySign });
+            items.push(LedgerCase { hash: h, levels: shape.clone(), state: KeyState::Live(ctr), accept: true, aux: AuxSel::FreshZero, entry: Entry::TrySignWithAux });
         }
     }
     ctx.enumerate("ledger", items.len() as u64, true, |i| items[i as usize].clone(), check_ledger);
